@@ -335,7 +335,7 @@ impl Server {
             // with an empty list the file directive may be missing (mode without file, see above)
             let modeline = if mode == "block" && variant % 3 == 1 && !plain { String::new() } else { format!("    mode \"{}\"\n", mode) };
             let conf = format!(
-                "server {{\n  address \"{ip}\"\n  port {port}\n  threads 4\n  blacklist {{\n{blfile}{modeline}  }}\n  log {{\n    level \"error\"\n    console false\n  }}\n{cache_sec}  route /file/* {{\n    file \"{d}/file.txt\"\n  }}\n  route /dir/* {{\n    directory \"{d}/www\"\n  }}\n  route /redir/* {{\n    redirect \"{redir}\"\n  }}\n  route /proxy/* {{\n    proxy \"127.0.0.1:{up}\"\n  }}\n  route /c19id/{nonce} {{\n    redirect \"http://c19.invalid/id/{nonce}\"\n  }}\n}}\n",
+                "server {{\n  address \"{ip}\"\n  port {port}\n  threads 4\n  blacklist {{\n{blfile}{modeline}  }}\n  log {{\n    level \"error\"\n    console false\n  }}\n{cache_sec}  route /file/* {{\n    file \"{d}/file.txt\"\n  }}\n  route /dir/* {{\n    directory \"{d}/www\"\n  }}\n  route /redir/* {{\n    redirect \"{redir}\"\n  }}\n  route /proxy/* {{\n    proxy \"127.0.0.1:{up}\"\n  }}\n  route /c19id/{nonce} {{\n    redirect \"http://c19.invalid/id/{nonce}\"\n  }}\n  host \"alt.c19.test\" {{\n    route /file/* {{\n      file \"{d}/file.txt\"\n    }}\n    route /dir/* {{\n      directory \"{d}/www\"\n    }}\n    route /redir/* {{\n      redirect \"{redir}\"\n    }}\n    route /proxy/* {{\n      proxy \"127.0.0.1:{up}\"\n    }}\n  }}\n}}\n",
                 ip = bind_ip, port = port, nonce = nonce, blfile = blfile, modeline = modeline, cache_sec = cache_sec, d = dir.display(), redir = REDIRECT_TARGET, up = upstream.port
             );
             let conf_path = dir.join("humphrey.conf");
@@ -476,7 +476,9 @@ fn render_xff(es: &[(String, bool, bool)], n: usize, plain: bool) -> String {
 /// forwarding-related fields (Forwarded, X-Real-IP, ...) naming unlisted addresses before or after it.
 /// `plain`: `Name: value` with one blank after the colon.
 fn request_bytes(uri: &str, xff: Option<&str>, xff2: Option<&str>, keep_alive: bool, n: usize, plain: bool) -> Vec<u8> {
-    let mut s = format!("GET {} HTTP/1.1\r\nHost: c19.test\r\n", uri);
+    // the blacklist belongs to the server, not to a host: one request in four goes to the host-specific sub-application
+    // `alt.c19.test`, which serves the same four route types under the same prefixes
+    let mut s = format!("GET {} HTTP/1.1\r\nHost: {}\r\n", uri, if n % 4 == 3 { "alt.c19.test" } else { "c19.test" });
     if n % 2 == 1 {
         s.push_str("User-Agent: c19-harness\r\nAccept: */*\r\n");
     }
